@@ -631,6 +631,15 @@ class ComposeLayout:
         self.unplaced = []
 
 
+def _all_descendants(e):
+    out = []
+    for attr in ('body', 'a', 'b'):
+        for ch in (getattr(e, attr, None) or []):
+            out.append(ch)
+            out.extend(_all_descendants(ch))
+    return out
+
+
 def compose_layout(result, interp=None):
     items = structure(result.block)
     lay = ComposeLayout()
@@ -702,7 +711,12 @@ def compose_layout(result, interp=None):
         out = []
         for e in els:
             if depth < 6 and e.kind == 'raw' and isinstance(e.val, (BytesV, ComposerV)):
-                out.extend(expand(from_value(e.val), depth + 1))
+                inner = expand(from_value(e.val), depth + 1)
+                for x in inner:
+                    # written by the outer composer's raw op: counts as that composer's output for its length fields
+                    for y in [x] + _all_descendants(x):
+                        y.extra.setdefault('via_ops', []).append(e.op)
+                out.extend(inner)
                 continue
             if e.kind in ('lp', 'repeat', 'sliced') and e.body:
                 e.body = expand(e.body, depth + 1)
